@@ -185,10 +185,29 @@ def _selection(ctx):
                        isinstance(sub.targets[0], ast.Tuple) and
                        isinstance(sub.value, ast.Call) and
                        K.is_meth(sub.value, 'split')]
+                def whole_listing(expr):
+                    if isinstance(expr, ast.Call) and \
+                            K.callee_text(expr) in ('set', 'frozenset',
+                                                    'list') and \
+                            len(expr.args) == 1:
+                        expr = expr.args[0]
+                    return isinstance(expr, ast.Call) and \
+                        K.is_meth(expr, 'get_children') and \
+                        len(expr.args) == 1 and \
+                        N.txt(expr.args[0]) == 'z.SCHEDULED'
+                narrowed = set()
+                for sub in K.walk_no_nested(func.node):
+                    if isinstance(sub, ast.AugAssign):
+                        narrowed.add(N.txt(sub.target))
+                    if isinstance(sub, ast.Call) and isinstance(
+                            sub.func, ast.Attribute) and sub.func.attr in (
+                                'remove', 'discard', 'pop', 'clear',
+                                'difference_update', 'intersection_update',
+                                'symmetric_difference_update'):
+                        narrowed.add(N.txt(sub.func.value))
                 listings = [name for name, vals in defs.items()
-                            if len(vals) == 1 and 'z.SCHEDULED' in
-                            N.txt(vals[0]) and 'get_children' in
-                            N.txt(vals[0])]
+                            if len(vals) == 1 and whole_listing(vals[0])
+                            and name not in narrowed]
                 ok = any(f.key[0] == 'in' and not f.key[3] and
                          f.key[1] in ids and f.key[2] in listings
                          for f in facts[node])
